@@ -605,6 +605,21 @@ func runC08(r *Run) error {
 		Batch: []c08Org{{10, g(0, 0)}, {11, g(1, 1)}, {12, g(0, 0, 0, 0, 0)}, {13, g(0, 0, 0, 0)}}})
 	add(c08Input{Kind: "fixed", Dc: 1, Ec: 1, Mc: 0.4, Thr: c08ThrStr(3), Species: []c08Species{}, Last: 0, Batch: []c08Org{}})
 	add(c08Input{Kind: "fixed", Dc: 1, Ec: 1, Mc: 0.4, Thr: c08ThrStr(0), Species: []c08Species{}, Last: 4, Batch: []c08Org{{10, g(0)}, {11, g(1)}}})
+	// near-ties: two compatible representatives almost equidistant from the arriving organism (differences
+	// of 1e-10 .. 1e-15), the strictly closer one in the later or in the earlier species
+	for _, delta := range []float64{1e-10, 5e-10, 1e-12, 1e-15} {
+		for _, linear := range []bool{false, true} {
+			for _, closerLater := range []bool{true, false} {
+				a, b := g(0, 1.5), g(delta, 1.5)
+				if !closerLater {
+					a, b = b, a
+				}
+				add(c08Input{Kind: "near-tie", Linear: linear, Dc: 1, Ec: 1, Mc: 2, Thr: c08ThrStr(3),
+					Species: []c08Species{{Id: 1, Members: []c08Org{{20, a}}}, {Id: 2, Members: []c08Org{{21, b}}}}, Last: 2,
+					Batch: []c08Org{{30, g(2, 1.5)}, {31, g(2+delta, 1.5)}}})
+			}
+		}
+	}
 	n := r.N(300, 6000)
 	for i := 0; i < n; i++ {
 		add(c08Gen(r, i%5))
